@@ -626,10 +626,40 @@ func hashGen(g *Gen) {
 			}
 		}
 	}
-	// the one history of the known finding (`:=` range over keys of different types); `ranged` is
-	// deliberately used nowhere else
+	// the one history of the known finding (`:=` range over keys of different types: since repo fix
+	// C14-03 the loop stops with an error instead of repeating the first key); on universes of ONE key
+	// type the defining form `ranged` must present what `range` presents (stream below)
 	g.Emit("ev S= U=i.5,s.ab set/i.5/1 set/s.ab/2 ranged")
 	g.Count("known-finding probe (ranged)")
+	oneKind := [][]string{
+		{"i.5", "i.6", "a.i.5", "i.-1", "i.0", "a.i.7"},
+		{"y.zk0", "y.zk1", "a.y.zk0"},
+		{"s.ab", "s.q", "a.s.ab", "s.zk0"},
+		{"c.97", "c.48", "a.c.48", "c.120"},
+	}
+	nDef := 160
+	if g.Thorough() {
+		nDef = 6000
+	}
+	for i := 0; i < nDef; i++ {
+		u := oneKind[g.Rng.Intn(len(oneKind))]
+		L := 1 + g.Rng.Intn(12)
+		parts := make([]string, 0, L+2)
+		for p := 0; p < L; p++ {
+			k := u[g.Rng.Intn(len(u))]
+			switch x := g.Rng.Intn(10); {
+			case x < 6:
+				parts = append(parts, "set/"+k+"/"+strconv.Itoa(p+1))
+			case x < 9:
+				parts = append(parts, "del/"+k)
+			default:
+				parts = append(parts, "ranged")
+			}
+		}
+		parts = append(parts, "ranged", "range")
+		g.Emit("ev %s U=%s %s", symtab, strings.Join(u, ","), strings.Join(parts, " "))
+		g.Count("defining range over keys of one type (" + hashKind(u[0]) + ")")
+	}
 	if g.Thorough() {
 		// (the answers of all lines are held in memory by the check, which bounds the enumeration)
 		exhaustive("pk", uA, 5, true)      // 10^5 histories, every prefix observed
